@@ -40,7 +40,10 @@ def build(fmt, cost, cap):
     `cost` selects the cost settings ("test" = the test's own)"""
     if fmt == "csv":
         from isla_formalizations import csv as m
-        kw = dict(semantic_predicates={COUNT_PREDICATE}, max_number_free_instantiations=1, max_number_smt_instantiations=2,
+        free = 1
+        if cost.endswith("-free10"):      # the setting of the project's CSV evaluation script: several instantiations per state
+            cost, free = cost[:-len("-free10")], 10
+        kw = dict(semantic_predicates={COUNT_PREDICATE}, max_number_free_instantiations=free, max_number_smt_instantiations=2,
                   enforce_unique_trees_in_queue=False, global_fuzzer=False,
                   fuzzer_factory=functools.partial(GrammarFuzzer, min_nonterminals=0, max_nonterminals=30))
         if cost != "test":
